@@ -328,6 +328,22 @@ class Ctx:
         self.coq_ok = bool(allok)
         return self.coq_ok
 
+    def coqchk(self, timeout=1500):
+        """Thorough tier: re-check the compiled closure of Properties/<pid>.vo with the independent checker and
+        record the axioms it reports (coqchk -o)."""
+        with Lock('coq'):
+            rc, so, se = sh('timeout %d coqchk -silent -o -R theories FEC FEC.Properties.%s' % (timeout, self.pid), cwd=COQ, timeout=timeout + 30)
+        txt = so + se
+        m = re.search(r'\* Axioms:(.*?)\n\s*\n\* Constants', txt, re.S)
+        axioms = ' '.join(m.group(1).split()) if m else 'unparsed'
+        unsafe = [l.strip() for l in txt.split('\n') if l.strip().startswith('* ') and 'Axioms' not in l and 'Theory' not in l and '<none>' not in l]
+        ok = rc == 0 and not unsafe
+        self.obligation('coqchk -o re-check of Properties/%s.vo and everything it depends on' % self.pid, ok, 'coqchk', 'axioms: %s' % axioms[:1500])
+        self.trusted_base.append('coqchk -o axioms for %s: %s' % (self.pid, axioms[:1500]))
+        if not ok:
+            self.coq_log = txt[-3000:]
+        return ok
+
     def broken_proof(self, what=None):
         """Record a broken proof obligation (no concrete failing input known yet)."""
         failed = [o['name'] for o in self.obligations if not o['ok']]
